@@ -233,3 +233,20 @@ impl<Context: AgentDescription, T> HandlerAction<Context> for SupplyLaneSync<Con
             .finish()
     }
 }
+
+/// Verification hooks (feature `verif_hooks` only).
+#[cfg(feature = "verif_hooks")]
+pub mod verif {
+    use super::SupplyLane;
+    use uuid::Uuid;
+
+    /// `SupplyLane::push`
+    pub fn supply_push<T>(lane: &SupplyLane<T>, event: T) {
+        lane.push(event)
+    }
+
+    /// `SupplyLane::sync`
+    pub fn supply_sync<T>(lane: &SupplyLane<T>, id: Uuid) {
+        lane.sync(id)
+    }
+}
